@@ -548,14 +548,17 @@ type PVerbose struct {
 
 // Fmt abstracts the formatting behaviour of a value (C09).
 type Fmt struct {
-	BadDirect      []string  `json:"badDirect"`      // specs where fmt(spec, e) != fmt(spec, e.Error())
-	BadFormattable []string  `json:"badFormattable"` // same through errors.Formattable
-	BadVerb        []string  `json:"badVerb"`        // other verbs: not fmt's %!verb(type) notation
-	BadVerbF       []string  `json:"badVerbF"`
-	GoSyntax       bool      `json:"goSyntax"`  // through Formattable: %#v gives a non-empty dump, also with the + flag
-	GoSyntaxD      bool      `json:"goSyntaxD"` // same, direct
-	PV             *PVerbose `json:"pv"`        // %+v, direct
-	PVF            *PVerbose `json:"pvf"`       // %+v, through Formattable
+	BadDirect      []string `json:"badDirect"`      // specs where fmt(spec, e) != fmt(spec, e.Error())
+	BadFormattable []string `json:"badFormattable"` // same through errors.Formattable
+	// the same for the specs that carry the '+' flag on s / q / x / X
+	BadDirectPlus      []string  `json:"badDirectPlus"`
+	BadFormattablePlus []string  `json:"badFormattablePlus"`
+	BadVerb            []string  `json:"badVerb"` // other verbs: not fmt's %!verb(type) notation
+	BadVerbF           []string  `json:"badVerbF"`
+	GoSyntax           bool      `json:"goSyntax"`  // through Formattable: %#v gives a non-empty dump, also with the + flag
+	GoSyntaxD          bool      `json:"goSyntaxD"` // same, direct
+	PV                 *PVerbose `json:"pv"`        // %+v, direct
+	PVF                *PVerbose `json:"pvf"`       // %+v, through Formattable
 }
 
 var entryRe = regexp.MustCompile(`^((?:  )*)(└─ )?Wraps: \((\d+)\)`)
@@ -656,15 +659,25 @@ func sprintf(spec string, a interface{}) (s string) {
 
 // FmtOf computes the formatting observation.
 func FmtOf(e error) *Fmt {
-	f := &Fmt{BadDirect: []string{}, BadFormattable: []string{}, BadVerb: []string{}, BadVerbF: []string{}}
+	f := &Fmt{BadDirect: []string{}, BadFormattable: []string{}, BadDirectPlus: []string{}, BadFormattablePlus: []string{},
+		BadVerb: []string{}, BadVerbF: []string{}}
 	text, _ := safeError(e)
 	for _, spec := range FmtSpecs() {
 		want := sprintf(spec, text)
+		plus := strings.Contains(spec, "+")
 		if got := sprintf(spec, e); got != want {
-			f.BadDirect = append(f.BadDirect, spec)
+			if plus {
+				f.BadDirectPlus = append(f.BadDirectPlus, spec)
+			} else {
+				f.BadDirect = append(f.BadDirect, spec)
+			}
 		}
 		if got := sprintf(spec, errors.Formattable(e)); got != want {
-			f.BadFormattable = append(f.BadFormattable, spec)
+			if plus {
+				f.BadFormattablePlus = append(f.BadFormattablePlus, spec)
+			} else {
+				f.BadFormattable = append(f.BadFormattable, spec)
+			}
 		}
 	}
 	for _, verb := range []string{"d", "t", "f", "c", "5d", "-3t"} {
